@@ -191,6 +191,8 @@ func (fc *FieldCase) input() interface{} {
 		return []interface{}{uint64(10 + n%80), uint64(11 + n%80)}
 	case KMInt:
 		return map[string]interface{}{"p": uint64(10 + n%80), "q": uint64(11 + n%80)}
+	case KMSlice:
+		return map[string]interface{}{"p": []interface{}{uint64(10 + n%80)}, "q": []interface{}{uint64(11 + n%80), uint64(12 + n%80)}}
 	case KMIface:
 		return map[string]interface{}{"p": "s" + itoa(n), "q": []interface{}{uint64(1), uint64(2)}}
 	case KIface:
@@ -304,10 +306,12 @@ func (sc *StructCase) prefill(v reflect.Value) {
 			f.Set(reflect.ValueOf([2]int{1, 2}))
 		case KMInt:
 			f.Set(reflect.ValueOf(map[string]int{"p": 1, "z": 9}))
+		case KMSlice:
+			f.Set(reflect.ValueOf(map[string][]int{"p": {1, 2, 3}, "z": {9}}))
 		case KMIface:
 			f.Set(reflect.ValueOf(map[string]interface{}{"z": "zz"}))
 		case KDInt:
-			f.Set(reflect.ValueOf(DInt{A: 5, B: "old"}))
+			f.Set(reflect.ValueOf(DInt{A: 5, B: "old", C: 9}))
 		case KPInner:
 			f.Set(reflect.ValueOf(&Inner{X: 5, Y: "old", hidden: 3, Ign: "keep"}))
 		}
@@ -382,7 +386,7 @@ func (sc *StructCase) apply(v reflect.Value, present bool) {
 			continue
 		case KDInt:
 			// InitDefaults runs before the settings are applied, mentioned or not
-			d := DInt{A: 7, B: "dflt"}
+			d := DInt{A: 7, B: "dflt", C: int(f.FieldByName("C").Int())}
 			if mentioned {
 				in := fc.In.(map[string]interface{})
 				if a, ok := in["a"]; ok {
@@ -455,6 +459,18 @@ func (sc *StructCase) apply(v reflect.Value, present bool) {
 			}
 			for k, x := range in.(map[string]interface{}) {
 				m[k] = int(x.(uint64))
+			}
+			f.Set(reflect.ValueOf(m))
+		case KMSlice:
+			m := map[string][]int{}
+			if !f.IsNil() {
+				for _, k := range f.MapKeys() {
+					m[k.String()] = f.MapIndex(k).Interface().([]int)
+				}
+			}
+			for k, x := range in.(map[string]interface{}) {
+				// a list under an existing key is merged index-wise (default policy), the longer tail survives
+				m[k] = combine("", reflect.ValueOf(m[k]), reflect.ValueOf(ints(x))).Interface().([]int)
 			}
 			f.Set(reflect.ValueOf(m))
 		case KMIface:
